@@ -125,7 +125,7 @@ func main() {
         groups = {}
         for k in expect:
             if got.get(k) != expect[k]:
-                groups.setdefault("".join(x[0] + x[1] for x in cases[k - 1]["prog"]), []).append(k)
+                groups.setdefault(",".join(cases[k - 1]["prog"]), []).append(k)
         for shape, ks in sorted(groups.items()):
             k = ks[0]
             c = cases[k - 1]
